@@ -50,7 +50,7 @@ def _p(vals, key):
     if key == "wholearray2x2" and not hasattr(vals["P"], "shape"):
         return dict(vals, P=[[vals["P"][0][0], vals["P"][0][1]], [5.0, 6.0]])
     return vals
-EVENTS = ["dumps", "read", "graph", "mutgraph", "other", "call1", "call2", "call1b", "call1n", "mutcaller", "dumpsI0", "graphI0", "graphI1", "match0", "match1",
+EVENTS = ["dumps", "read", "graph", "mutgraph", "other", "badcall", "badmatch", "call1", "call2", "call1b", "call1n", "mutcaller", "dumpsI0", "graphI0", "graphI1", "match0", "match1",
           "mut0:arg", "mut0:list", "mut0:arr", "mut0:opt", "mut0:op", "mut0:gate", "mut0:var", "mut0:modes", "mut0:rrt", "mut1:arg", "mut1:arr"]
 MAXINST = 3
 
@@ -99,6 +99,8 @@ def pvals(T, vals):
 
 
 def enabled(ev, ninst, is_template, key=None):
+    if ev == "badcall" and not is_template:
+        return False
     if ev in ("call1n", "mutcaller") and key not in ARRAY_PROGS:
         return False
     if ev.startswith("call"):
@@ -123,6 +125,24 @@ def apply_event(T, inst, ev, key=None, caller=None):
         _ = (T.name, T.version, T.target, T.programtype, T.operations, T.parameters, T.variables, T.modes, T.is_template(), len(T))
         for o in T.operations:
             _ = (o.get("args"), o.get("kwargs"), o["modes"], o["op"])
+    elif ev == "badcall":
+        # calls that are refused: a value missing, a value too many of the wrong shape, an array value of the wrong dimension
+        import numpy as np_
+        names = sorted(n.split("_")[0] if n.startswith("P_") else n for n in T.parameters)
+        for bad in ({}, dict.fromkeys(names[:-1], 0.5), dict({n: 0.5 for n in names}, **({"P": [1.0, 2.0]} if "P" in names else {"zz_unknown": [1.0]})), {n: [1.0, 2.0] for n in names}):
+            try:
+                T(**bad)
+            except Exception:  # noqa
+                pass
+    elif ev == "badmatch":
+        # matches that are refused: against another program, and against the program with one operation removed
+        st_, O = common.loads(H + "\nZ(1) | 0\nY | [0, 1]\nX(0.5) | 2\n")
+        for other in ([O] if st_ == "ok" else []) + list(inst[:1]):
+            for a_, b_ in ((T, other), (other, T)):
+                try:
+                    match_template(a_, b_)
+                except Exception:  # noqa
+                    pass
     elif ev == "other":
         # something is done with ANOTHER, unrelated program in between (a tdm template: loaded, serialised, instantiated, drawn)
         st_, O = common.loads(H + "type tdm (temporal_modes=2)\n\nfloat array p1 =\n    0.5, 1.5\nint array p20 =\n    1, 2\nSgate(p1, {a}) | 0\nMeasureHomodyne(phi=p20) | 0\n")
